@@ -149,7 +149,7 @@ theorem kidsAtomOk_set {L : Char → Bool} {ns : List Node} (h : kidsAtomOk L ns
   · rw [hr]; exact hx
 
 theorem atomOk_setAt {L : Char → Bool} {new cur : Node} (hta : new.textAtomic = cur.textAtomic)
-    (ht : new.text = cur.text) (hn : kidsAtomOk L new.children = true) :
+    (ht : new.text = cur.text) (hat : new.attrs = cur.attrs) (hn : kidsAtomOk L new.children = true) :
     ∀ (p : Path) (root : Node), getAt root p = some cur → atomOk L root = true → atomOk L (setAt root p new) = true := by
   intro p
   induction p with
@@ -157,8 +157,8 @@ theorem atomOk_setAt {L : Char → Bool} {new cur : Node} (hta : new.textAtomic 
     intro root hp hroot
     simp only [getAt, Option.some.injEq] at hp; subst hp
     rw [atomOk_iff] at hroot ⊢
-    simp only [setAt, hta, ht]
-    exact ⟨hroot.1, hn⟩
+    simp only [setAt, hta, ht, hat]
+    exact ⟨hroot.1, hroot.2.1, hn⟩
   | cons i p ih =>
     intro root hp hroot
     rw [getAt_cons] at hp
@@ -166,7 +166,7 @@ theorem atomOk_setAt {L : Char → Bool} {new cur : Node} (hta : new.textAtomic 
     · rename_i c hc
       rw [setAt_cons hc]
       rw [atomOk_iff] at hroot ⊢
-      refine ⟨hroot.1, kidsAtomOk_set hroot.2 i (ih c hp (atomOk_of_mem hroot.2 c (List.mem_of_getElem? hc)))⟩
+      refine ⟨hroot.1, hroot.2.1, kidsAtomOk_set hroot.2.2 i (ih c hp (atomOk_of_mem hroot.2.2 c (List.mem_of_getElem? hc)))⟩
     · simp at hp
 
 /-! ### from "no element has a dirty child" to "no placeholder anywhere" -/
